@@ -10,7 +10,7 @@
      Qt s p o a quoted triple `<< s p o >>` (RDF-star), nested to any depth
    "Illegal position" (a quad dropped from a template) is the store's own classification of a
    bound value, evaluated on the pre-operation dataset (legal_subject / legal_predicate /
-   legal_graph below).
+   legal_object / legal_graph below; a quoted triple is legal when its three components are).
 
    SPARQL Update semantics for one operation (spec_update):
      the WHERE clause is evaluated once on the pre-operation dataset (eval_where is a parameter:
